@@ -457,6 +457,10 @@ def load_strategy_hints():
         return {}
 
 
+def _hint_name(h):
+    return h[0] if isinstance(h, list) else h
+
+
 def save_strategy_hints(new):
     """Speed only: remembers which proof strategy discharged an obligation (never a verdict)."""
     if not new or os.environ.get('VF_NO_HINT_UPDATE'):
@@ -513,6 +517,10 @@ def _work(args):
     name, kind, r, ns, be = strat
     ctx, ob = _G['ctx'], _G['obs'][idx]
     t0 = time.time()
+    done = _G.get('done')
+    if done is not None and done[idx]:
+        # another strategy already settled this obligation
+        return idx, name, be, 'skipped', 0.0, None
     smt.FLATTEN[0] = bool(getattr(ob, 'flatten', False))
     # instantiation is cut off too (a blow-up must end as "undecided", never as a hang)
     smt.DEADLINE[0] = t0 + 2 * timeout + 10
@@ -551,6 +559,8 @@ def portfolio(ctx, ob, rounds, backends):
     if any(k.get_id() in smt.SK_BOUNDS for k in ob.skolems) or getattr(ob, 'split_terms', None):
         for cr in range(1, rounds + 2):
             plan.append(('cases/inst%d' % cr, 'cases', cr, False, backends[0], False))
+        for be in backends[1:]:
+            plan.append(('cases/inst%d@%s' % (rounds, be), 'cases', rounds, False, be, False))
         plan.append(('cases/inst%d/nra' % (rounds + 1), 'cases', rounds + 1, False, 'z3py-nra', False))
         if nosum_ok:
             plan.append(('cases/inst1/nosum', 'cases', 1, True, backends[0], False))
@@ -574,7 +584,7 @@ def _bounded_iter(it, deadline, ctx):
             return
 
 
-def discharge(ctx, obligations=None, timeout=20, procs=None, backends=('z3py', 'z3-4.8'), rounds=2, progress=None):
+def discharge(ctx, obligations=None, timeout=20, procs=None, backends=('z3py', 'z3-4.8', 'cvc5'), rounds=2, progress=None):
     """Discharge obligations. Phase 1: ground VC; phase 2: one instantiation round; phase 3: a portfolio run
     concurrently (full instantiation on every back end, NRA abstraction, proof by cases on the last index of bounded
     skolems), the strategy that worked last time first. Workers are forked, so instantiation runs in parallel too.
@@ -592,9 +602,10 @@ def discharge(ctx, obligations=None, timeout=20, procs=None, backends=('z3py', '
             todo.append(i)
     if todo:
         _G['ctx'], _G['obs'] = ctx, obligations
+        _G['done'] = mp.RawArray('b', len(obligations))
         keys = obligation_keys(obligations)
         hints = load_strategy_hints()
-        pool = mp.Pool(procs)
+        pool = mp.Pool(procs, maxtasksperchild=1)
         try:
             for (name, kind, r, tmo) in (('stage0', 'ground', 0, min(timeout, 3)), ('stage1', 'full', 1, min(timeout, 6))):
                 if not todo:
@@ -609,6 +620,7 @@ def discharge(ctx, obligations=None, timeout=20, procs=None, backends=('z3py', '
                         ctx.notes.append(err)
                     if st_ == 'unsat':
                         ob.status, ob.backend = 'discharged', '%s/%s' % (be, nm)
+                        _G['done'][i] = 1
                         left.discard(i)
                 todo = [i for i in todo if i in left]
                 if os.environ.get('VF_TIMING'):
@@ -620,24 +632,46 @@ def discharge(ctx, obligations=None, timeout=20, procs=None, backends=('z3py', '
                         ob = obligations[i]
                         plan = portfolio(ctx, ob, rounds, backends)
                         if hinted:
-                            plan = [p for p in plan if p[0] == hints.get(keys[id(ob)])]
+                            plan = [p for p in plan if p[0] == _hint_name(hints.get(keys[id(ob)]))]
                         state[i] = dict(open=len(plan), resolved=len(plan) == 0, sat=None, refutes={(p[0], p[4]): p[5] for p in plan})
                         for p in plan:
                             jobs.append((i, p[:5], timeout))
                     if not jobs:
                         return state
+                    # strategy-major order: every obligation gets its first strategies before anyone's last resort runs
+                    order = {}
+                    for n_, j in enumerate(jobs):
+                        order.setdefault(j[0], []).append(n_)
+                    rankj = {}
+                    for i_, ns in order.items():
+                        for r_, n_ in enumerate(ns):
+                            rankj[n_] = r_
+                    jobs = [j for n_, j in sorted(enumerate(jobs), key=lambda x: (rankj[x[0]], x[0]))]
                     for (i, nm, be, st_, secs, err) in _bounded_iter(pool.imap_unordered(_work, jobs, chunksize=1), hard_deadline, ctx):
                         ob, st = obligations[i], state[i]
                         st['open'] -= 1
+                        if st_ == 'skipped':
+                            if st['open'] == 0:
+                                st['resolved'] = True
+                            if all(x['resolved'] for x in state.values()):
+                                break
+                            continue
                         if err:
                             ctx.notes.append(err)
                         if not st['resolved']:
                             ob.seconds += secs
                             if st_ == 'unsat':
-                                ob.status, ob.backend, ob.strategy = 'discharged', '%s/%s' % (be, nm), nm
-                                if hinted and secs > 20:
-                                    # the remembered strategy works but is slow: forget it, the next run picks the fastest
-                                    ob.strategy = '<drop>'
+                                ob.status, ob.backend, ob.strategy = 'discharged', '%s/%s' % (be, nm), [nm, round(secs, 1)]
+                                if hinted:
+                                    # the remembered strategy works but is much slower than when it was recorded (or was never
+                                    # timed): forget it, the next run picks the fastest again
+                                    h = hints.get(keys[id(ob)])
+                                    t_rec = h[1] if isinstance(h, list) else None
+                                    if secs > 20 and (t_rec is None or secs > 3 * t_rec + 20):
+                                        ob.strategy = '<drop>'
+                                    else:
+                                        ob.strategy = h
+                                _G['done'][i] = 1
                                 st['resolved'] = True
                             elif st_ == 'sat' and st['refutes'].get((nm, be)):
                                 st['sat'] = '%s/%s' % (be, nm)
@@ -650,9 +684,12 @@ def discharge(ctx, obligations=None, timeout=20, procs=None, backends=('z3py', '
                 hinted = [i for i in todo if keys[id(obligations[i])] in hints]
                 if hinted:
                     wave(hinted, True)
+                    if os.environ.get('VF_TIMING'):
+                        print('hinted wave: %.1fs for %d obligations, %d left' % (
+                            time.time() - t_ph, len(hinted), sum(1 for i in hinted if obligations[i].status is None)), file=sys.stderr)
                     pool.terminate()
                     pool.join()
-                    pool = mp.Pool(procs)
+                    pool = mp.Pool(procs, maxtasksperchild=1)
                 rest = [i for i in todo if obligations[i].status is None]
                 if rest:
                     state = wave(rest, False)
